@@ -9,6 +9,11 @@ use crate::inputs::*;
 use crate::mem::Arena;
 use crate::refs::wrap::GzFields;
 
+/// the engine was built with debug assertions (variant "dbg": overflow checks + debug assertions in the library)
+pub fn checked_build() -> bool {
+    cfg!(debug_assertions)
+}
+
 #[derive(Clone, Copy, Debug, PartialEq, Eq)]
 pub enum DOp {
     /// deflate(flush) with `inn` new input bytes (usize::MAX = a 300-byte piece) and `room` output bytes
@@ -255,7 +260,12 @@ pub fn run_dops_full<Zx: Z>(level: i32, method: i32, wbits_arg: i32, mem_level: 
                     }
                 }
                 DOp::Tune(a, b, c, d) => o.ret = Zx::deflateTune(s.p(), a, b, c, d) as i64,
-                DOp::Prime(_, _) if strict_pre && deflate_called => {
+                DOp::Prime(b, _) if b > 16 && live && checked_build() => {
+                    // zlib.h: "bits must be less than or equal to 16"; the library asserts it in builds with debug
+                    // assertions (the checked-arithmetic variant): the documented misuse is not made there
+                    o.ret = 97;
+                }
+                DOp::Prime(_, _) if (strict_pre || checked_build()) && deflate_called => {
                     // zlib.h: deflatePrime "must be used before the first deflate() call after a deflateInit2() or deflateReset()"
                     o.ret = 99;
                 }
